@@ -1,0 +1,9 @@
+//go:build !verif
+
+// Package vhook holds the scheduling hooks used by the verification
+// machinery in /verif. Without the "verif" build tag every hook is an
+// empty function that the compiler removes.
+package vhook
+
+// Point marks a scheduling point. It does nothing in normal builds.
+func Point(site string, key any) {}
